@@ -1029,6 +1029,8 @@ pub fn dec_enumerated(thorough: bool) -> Vec<Vec<String>> {
 ///   rejected, error variant and payload; `finish` then says CutShort unless the size is 0): all
 ///   65536 values in the thorough tier, in the quick tier every value with one digit in
 ///   {0, 1, 2, 251..255} or on the diagonal; one call `00 h0 h1`, and split between the two bytes;
+/// * production limits, low digit 253..255 (out of radix) x high digit (quick: 10 values; thorough:
+///   all) WITH the body of the size `h0 + 253 * h1` the header would alias;
 /// * limits (2, 507): every header with high digit 0..=3 (sizes 0..=1011: all valid ones and the
 ///   over-long ones next to them) WITH a filler body of that size, unsplit and split inside the header.
 fn dec_header_sweep(thorough: bool) -> Vec<Vec<String>> {
@@ -1046,13 +1048,15 @@ fn dec_header_sweep(thorough: bool) -> Vec<Vec<String>> {
     for l in [Limits::prod(), Limits::custom(3, 5).unwrap()] {
         for h in 0..=255usize {
             rot += 1;
-            let body = if h <= l.mi { h } else { 2 };
+            // the body an over-long header announces is supplied too (and the empty chunk that must
+            // follow a full one): a decoder that let the header pass would accept the whole message
+            let body = h;
             let mut wire = format!("{:02x}", h);
             if body > 0 {
                 wire.push('+');
                 wire.push_str(&const_token(0x41, body));
             }
-            if h == l.mi {
+            if h >= l.mi {
                 wire.push_str("+0000");
             }
             let m = METHODS[rot % 4];
@@ -1104,20 +1108,50 @@ fn dec_header_sweep(thorough: bool) -> Vec<Vec<String>> {
         }
     }
     flush(&mut ops, &mut runs, &mut cases, true);
+    // production limits, out-of-radix LOW digit (253..255) with the body of the size it would alias
+    // (h0 + 253 * h1 <= 64008) and the ending that size calls for
+    for h0 in 253..=255usize {
+        for h1 in 0..=252usize {
+            if !thorough && !matches!(h1, 0 | 1 | 2 | 85 | 86 | 170 | 171 | 250 | 251 | 252) {
+                continue;
+            }
+            let size = h0 + 253 * h1;
+            if size > prod.ms {
+                continue;
+            }
+            rot += 1;
+            let mut tail = format!("{:02x}+{}", h1, const_token(0x42, size));
+            if size == prod.ms {
+                tail.push_str("+0000");
+            }
+            ops.push(prod.op());
+            if rot % 2 == 0 {
+                ops.push(format!("dec {} 00{:02x}+{}", METHODS[(rot / 2) % 4], h0, tail));
+            } else {
+                ops.push(format!("dec {} 00{:02x}", METHODS[(rot / 2) % 4], h0));
+                ops.push(format!("dec {} {}", METHODS[(rot / 8) % 4], tail));
+            }
+            ops.push("finish".into());
+            runs += 1;
+            flush(&mut ops, &mut runs, &mut cases, false);
+        }
+    }
+    flush(&mut ops, &mut runs, &mut cases, true);
     // limits (2, 507): header + body
     let l = Limits::custom(2, 507).unwrap();
     for h1 in 0..=3usize {
         for h0 in 0..=255usize {
             rot += 1;
             let size = h0 + 253 * h1;
-            let body = if h0 < 253 && size <= l.ms { size } else { 3 };
+            // out-of-radix low digit: the body of the size it would alias is supplied all the same
+            let body = if size <= l.ms { size } else { 3 };
             // first chunk: one byte (short, so a stuff sequence is implied), then the header under test
             let mut tail = format!("{:02x}", h1);
             if body > 0 {
                 tail.push('+');
                 tail.push_str(&const_token(0x42, body));
             }
-            if size == l.ms {
+            if size >= l.ms {
                 tail.push_str("+0000");
             }
             ops.push(l.op());
